@@ -37,6 +37,23 @@ theorem check_iff (m : Model) (hs : Sane m) (hv : VDet m) (env : FnEnv) (henv : 
       rw [← hiff]
       cases b <;> simp
 
+/-- **check_true_sound.** Whatever the `user_fns` dictionary (functions missing, or raising): a yes
+    answer is always justified by the signing relation, with raising / missing functions read as false.
+    Only the loader's structural check is assumed. -/
+theorem check_true_sound (m : Model) (hs : Sane m) (env : FnEnv) (pkt key : List Bytes)
+    (h : check m env pkt key = .ok true) :
+    ∃ p k, dropDigest pkt = some p ∧ dropDigest key = some k ∧ Signs m (pureOf env) p k := by
+  unfold check at h
+  rw [stripDigest_eq pkt, stripDigest_eq key] at h
+  cases hp : dropDigest pkt with
+  | none => simp [hp] at h
+  | some p =>
+    cases hk : dropDigest key with
+    | none => simp [hp, hk] at h
+    | some k =>
+      simp only [hp, hk] at h
+      exact ⟨p, k, rfl, rfl, checkCore_true_sound m hs env p k h⟩
+
 /-- `check` gives an answer (no exception) on names that are not empty. -/
 theorem check_total (m : Model) (hs : Sane m) (hv : VDet m) (env : FnEnv) (henv : EnvTotal env)
     (pkt key p k : List Bytes) (hp : dropDigest pkt = some p) (hk : dropDigest key = some k) :
